@@ -69,3 +69,68 @@ contract(LAN + "_Packet.decode#interop",
          bind={"data": "data"},
          raises={},
          ensures={"independent_packets_decode": "result == frame"})
+
+
+# ---- V3 -----------------------------------------------------------------------------------------------------------
+V3 = LAN + "_LanProtocolV3"
+
+fields(LAN + "_LanProtocol", _transport="opt:ext:transport", _peer="opt:str", _queue="ext:queue")
+fields(V3, _queue="ext:queue:v3_queued", _packet_id="int", _buffer="bytearray", _local_key="opt:bytes[32]",
+       _local_key_expiration="opt:ext:datetime")
+
+
+def v3_queued(x):
+    """post-condition of _LanProtocolV3.data_received for everything it queues"""
+    return len(x) >= 8 and x[:2] == b"\x83\x70" and len(x) == int.from_bytes(x[2:4], "big") + 8
+
+
+def v3_pad(n):
+    return (-(n + 2)) % 16
+
+
+def v3_packet(key, ctr, payload, rnd, typ):
+    pad = len(rnd)
+    header = b"\x83\x70" + be16(len(payload) + pad + 32) + b"\x20" + bytes([(pad << 4) | typ])
+    plain = be16(ctr) + payload + rnd
+    return header + aes_cbc_enc(key, plain) + sha256(header + plain)
+
+
+contract(V3 + "._encode_encrypted_request",
+         params={"self": "obj:" + V3, "packet_id": "int[0,65535]", "data": "bytes"},
+         requires=["len(data) <= 65000"],
+         rtype="bytes",
+         raises={LAN + "ProtocolError": {"when": "self._local_key is None"}},
+         post_let={"plain": "aes_cbc_dec(self._local_key, result[6:-32])", "rnd": "aes_cbc_dec(self._local_key, result[6:-32])[2 + len(data):]"},
+         ensures={"authenticated": "self._local_key is not None",
+                  "format": "result == v3_packet(self._local_key, packet_id, data, rnd, 6)",
+                  "padding": "len(rnd) == v3_pad(len(data))",
+                  "size_field": "int.from_bytes(result[2:4], 'big') + 8 == len(result)",
+                  "block_aligned": "len(plain) % 16 == 0"})
+
+contract(V3 + "._decode_encrypted_response",
+         params={"self": "obj:" + V3, "packet": "memoryview"},
+         requires=["len(packet) >= 8"],
+         rtype="bytes",
+         raises={LAN + "ProtocolError": {}},
+         post_let={"D": "aes_cbc_dec(self._local_key, packet[6:-32])", "pad": "packet[5] >> 4"},
+         ensures={"authenticated": "self._local_key is not None",
+                  "ciphertext_is_block_aligned": "len(packet[6:-32]) % 16 == 0",
+                  "tag_covers_header_and_plaintext": "sha256(bytes(packet[:6]) + D) == packet[-32:]",
+                  "payload": "result == D[2:len(D) - pad]"})
+
+contract(V3 + "._process_packet#interop",
+         params={"self": "obj:" + V3, "ctr": "int[0,65535]", "payload": "bytes", "rnd": "bytes"},
+         requires=["self._local_key is not None", "len(payload) <= 65000", "len(rnd) == v3_pad(len(payload))"],
+         let={"packet": "memoryview(v3_packet(self._local_key, ctr, payload, rnd, 3))"},
+         bind={"packet": "packet"},
+         calls_inline=[V3 + "._decode_encrypted_response"],
+         raises={},
+         ensures={"independent_packets_decode": "result == payload"})
+
+contract(V3 + "._process_packet",
+         params={"self": "obj:" + V3, "packet": "memoryview"},
+         requires=["v3_queued(packet)"],
+         rtype="bytes",
+         raises={LAN + "ProtocolError": {}},
+         ensures={"type": "(packet[5] & 0xF) == 3 or (packet[5] & 0xF) == 1",
+                  "handshake_payload": "implies((packet[5] & 0xF) == 1, result == packet[8:])"})
